@@ -54,8 +54,8 @@ ENGINES = {
     'clean': _eng('clean', dict(N=2, NS=1, CLEAN=True, MaxActs=2, MaxOps=6, OPS={"new", "drop", "put", "collect", "register", "clean", "dropcl", "clone"}),
                   dict(MaxOps=7), {'quick': ['all-dev'], 'thorough': ['all-dev', 'nofin-rel']}),
     # registering actions while an automatic collection is due (Cc::new of the map runs user code, nested register on the same Cleaner)
-    'cleanauto': _eng('cleanauto', dict(N=2, NS=1, CLEAN=True, AUTO0=True, MaxActs=2, MaxOps=6, OPS={"new", "drop", "put", "collect", "register", "clean"}),
-                  dict(MaxOps=7), {'quick': ['all-dev'], 'thorough': ['all-dev', 'nofin-rel']}),
+    'cleanauto': _eng('cleanauto', dict(N=2, NS=1, CLEAN=True, AUTO0=True, MaxActs=2, MaxOps=7, OPS={"new", "drop", "set", "collect", "register", "clean"}),
+                  dict(MaxOps=8), {'quick': ['all-dev'], 'thorough': ['all-dev', 'nofin-rel']}),
     'cleanfault': _eng('cleanfault', dict(N=2, NS=1, CLEAN=True, MaxActs=2, MaxOps=5, MaxFaults=1, MaxTraceK=1, OPS={"new", "drop", "put", "collect", "register", "clean", "dropcl"}),
                   dict(MaxOps=6), {'quick': ['all-dev'], 'thorough': ['all-dev', 'nofin-rel']}),
     # deeper fault histories over two objects (stale marks / counters left by an unwound collection and what later operations do with them)
